@@ -38,7 +38,7 @@ def build_sort(sc, lead=0):
         # three objectives, the sort key uses a strict subset (0 and 2); the heavily weighted objective 1 must not matter
         objs, cons = np.stack([val, 10.0 * _decoy(n), np.array(sc["o2"], dtype=np.float64)], axis=1), None
         cfg["objectives"] = {"weights": [1.0, 5.0, 2.0], "realization_filters": [0, -1, 0]}
-        cfg["realization_filters"] = [{"method": "sort-objective", "options": {"sort": [0, 2], **opts}}]
+        cfg["realization_filters"] = [{"method": "sort-objective", "options": {"sort": [2, 0] if (n + sc["first"]) % 2 else [0, 2], **opts}}]
         col = ("obj", 0)
     elif fl in ("obj", "objneg"):
         objs, cons = np.stack([_decoy(n), val if fl == "obj" else -val], axis=1), None
